@@ -148,6 +148,7 @@ func init() {
 			{Name: "fromjaccard", Run: c17FromJaccard},
 			{Name: "variants", TShards: 4, Run: c17Variants},
 			{Name: "longk", Run: c17LongK},
+			{Name: "edgeruns", TShards: 2, Run: c17EdgeRuns},
 			{Name: "srcviews", Run: srcViewUnit(viewCallsC17)},
 			{Name: "casemasks", Run: caseMaskUnit("ACGTN", 48, 140, func(k *K, v []byte) {
 				kk := 1 + len(v)/4
@@ -837,5 +838,57 @@ func c17LongK(c *Ctx) {
 			}
 			k.Nontrivial([]byte(fmt.Sprint("longk", l)))
 		})
+	}
+}
+
+// c17EdgeRuns: several sequences in ONE call whose ends are runs of one symbol —
+// contigs that end in N and start with N (assembly gaps at scaffold breaks),
+// poly-A tails followed by poly-A heads. Whatever a sketching loop remembers
+// about the run it is in (to skip repeated k-mers) belongs to one sequence. For
+// every k = 1..6 (thorough 9), every tail length 0..k+2 and head length
+// 0..2k+2, against the brute-force sketch, in both orders and one Add each.
+func c17EdgeRuns(c *Ctx) {
+	maxK := c.N(6, 9)
+	idx := int64(0)
+	for kk := 1; kk <= maxK; kk++ {
+		for _, sym := range []byte("NAn") {
+			c.Case(idx, func(k *K) {
+				r := k.Rand()
+				h := &hashOracle{memo: map[string]uint64{}}
+				k.Input("k", kk)
+				k.Input("run_symbol", string(sym))
+				for tail := 0; tail <= kk+2; tail++ {
+					for head := 0; head <= 2*kk+2; head++ {
+						s1 := append(randSeq(r, []byte("ACGT"), 4+r.IntN(8)), bytes.Repeat([]byte{sym}, tail)...)
+						s2 := append(bytes.Repeat([]byte{sym}, head), randSeq(r, []byte("ACGT"), 4+r.IntN(8))...)
+						seqs := [][]byte{s1, s2}
+						if r.IntN(3) == 0 {
+							seqs = append(seqs, bytes.Repeat([]byte{sym}, r.IntN(2*kk+2)), s1)
+						}
+						want := refSketch(h, 1000, kk, seqs)
+						got := append([]uint64{}, mash.Sequences(1000, kk, cloneSeqs(seqs)...).View()...)
+						if !sameU64(got, want) {
+							k.Input("seqs", seqsString(seqs))
+							k.Failf("sketch", "Sequences(1000,%d,...) of sequences that end in %d and start with %d %q: %d values, brute force over all k-mers of all sequences gives %d", kk, tail, head, sym, len(got), len(want))
+							return
+						}
+						m := mash.Sequences(1000, kk)
+						for j := len(seqs) - 1; j >= 0; j-- {
+							mash.Add(m, kk, append([]byte{}, seqs[j]...))
+						}
+						if !sameU64(m.View(), want) {
+							k.Input("seqs", seqsString(seqs))
+							k.Failf("sketch-variant", "the same sequences added one Add at a time in reverse order give another sketch")
+							return
+						}
+						k.Count("sketches_checked", 2)
+						k.Count("edge_run_calls", 1)
+						k.Evals(2)
+					}
+				}
+				k.Nontrivial([]byte(fmt.Sprint("edgeruns", kk, sym)))
+			})
+			idx++
+		}
 	}
 }
